@@ -1,0 +1,67 @@
+//go:build verif
+
+package kioshun
+
+import (
+	"reflect"
+	"sync"
+)
+
+var verifNotes sync.Map // scheduler thread id -> note left at its latest named yield
+
+// verifYieldNote is verifYield with a note (the key a sync.Map.Range callback is visiting)
+// the harness can read while the thread is parked.
+func verifYieldNote(point int, note string) {
+	if !verifSched.on.Load() {
+		return
+	}
+	verifSched.mu.Lock()
+	th := verifSched.byGoid[verifGoid()]
+	verifSched.mu.Unlock()
+	if th == nil {
+		return
+	}
+	verifNotes.Store(th.id, note)
+	verifYield(point)
+}
+
+// VerifSchedNote returns the note thread id left at its latest named yield.
+func VerifSchedNote(id int) string {
+	if v, ok := verifNotes.Load(id); ok {
+		return v.(string)
+	}
+	return ""
+}
+
+// VerifState exposes the registry (meaningful while every other thread is parked): the
+// instance stored under each name, the registered names with their pinned type ("" for an
+// untyped registration) and the state of the registration lock (0 free, 1 read-held, 2 write-held).
+func (m *Manager) VerifState() (caches map[string]any, regs map[string]reflect.Type, lock int) {
+	caches = map[string]any{}
+	m.caches.Range(func(k, v any) bool {
+		caches[k.(string)] = v
+		return true
+	})
+	if m.configMu.TryLock() {
+		m.configMu.Unlock()
+	} else if m.configMu.TryRLock() {
+		m.configMu.RUnlock()
+		lock = 1
+	} else {
+		lock = 2
+	}
+	regs = map[string]reflect.Type{}
+	if lock != 2 {
+		m.configMu.RLock()
+		for k, r := range m.registrations {
+			regs[k] = r.cacheType
+		}
+		m.configMu.RUnlock()
+	} else {
+		// the writer is parked at a yield point: reading the map races with nothing
+		for k, r := range m.registrations {
+			regs[k] = r.cacheType
+		}
+	}
+	return
+}
